@@ -51,20 +51,15 @@ theorem sameCap_flushMem (s : State) (oi : Nat) (o : Obj) (force : Bool) :
       simp only
       split
       · split
-        all_goals first
-          | exact SameCap.of_core (by simp)
-          | (split
-             · exact SameCap.of_core (by simp)
-             · exact (SameCap.of_core (by simp)).trans (sameCap_mergeInto _ _ _ _))
+        · exact SameCap.refl s
+        · exact sameCap_mergeInto _ _ _ _
       · exact SameCap.refl s
     | some e =>
       cases hm : e.modified <;> cases force <;> simp only [hm, Bool.false_eq_true, if_false, if_true]
       all_goals first
         | exact ⟨rfl, rfl, rfl⟩
         | (split <;> exact ⟨rfl, rfl, rfl⟩)
-  · refine SameCap.trans ?_ (sameCap_mergeInto _ _ _ _)
-    refine SameCap.trans ?_ (sameCap_own _ _ _ _)
-    exact ⟨rfl, rfl, rfl⟩
+  · exact ⟨rfl, rfl, rfl⟩
 
 theorem sameCap_flushOne (s : State) (oi : Nat) (force : Bool) : SameCap s (flushOne s oi force).1 := by
   unfold flushOne
